@@ -146,6 +146,10 @@ fn extract<W: Write>(out: &mut W, hi: usize, hist: &Value) {
     rd!("read_storage.stream", { let _ = cf.read_storage("/a/s1").is_err(); });
     rd!("walk", { let _ = cf.walk(); });
     rd!("walk_storage", { let _ = cf.walk_storage("/a"); });
+    // formatting and cloning are read-only uses of a shared &CompoundFile too
+    rd!("debug.compound_file", { let _ = format!("{:?}", cf); });
+    rd!("debug.entry", { let e = cf.root_entry(); let _ = format!("{:?}", e); });
+    rd!("entry.accessors", { if let Ok(e) = cf.entry("/a/s1") { let _ = (e.name().len(), e.path().to_path_buf(), e.is_stream(), e.is_storage(), e.is_root(), e.len(), e.is_empty(), *e.clsid(), e.state_bits(), e.created(), e.modified()); } });
     // iteration: every next() is its own call
     {
         let mut it = cf.walk();
@@ -313,6 +317,9 @@ fn stream_lens(cf: &Cf, which: u64) -> Result<Vec<Value>, String> {
                 for e in cf.walk() {
                     if e.is_stream() {
                         out.push(json!([e.path().to_string_lossy(), e.len()]));
+                    } else {
+                        // a recursive listing: another read-only call in the middle of the iteration
+                        let _ = cf.is_storage(e.path());
                     }
                 }
             }
@@ -340,6 +347,7 @@ fn stream_lens(cf: &Cf, which: u64) -> Result<Vec<Value>, String> {
                 let _ = cf.is_storage("/q");
                 let _ = cf.root_entry();
                 let _ = cf.version();
+                let _ = format!("{:?}", cf);
             }
             _ => {
                 for e in cf.read_root_storage() {
